@@ -192,6 +192,18 @@ func init() {
 			},
 		},
 		propCheck{
+			ID: "C36", Level: "exploration",
+			Rule: "one evaluation = one simulated run over a fixed database (two indexed tables, a view, 60 + 90 rows): 2-8 sessions registered with the process list, 1-4 rounds; in every round the tape picks the overlap group (which sessions take part) and 1-5 statements per member out of 34 read-only statements (scans, index lookups, inner / left joins, grouping, DISTINCT, UNION, CTE, window function, correlated and IN / NOT EXISTS subqueries, view reads, information_schema tables / columns / statistics, SHOW TABLES / CREATE TABLE / INDEX / COLUMNS / VARIABLES, EXPLAIN, system variables, CONNECTION_ID(), user variables, SQL_CALC_FOUND_ROWS / FOUND_ROWS(), SQL-level PREPARE / EXECUTE). C36a: the members' statements are interleaved one by one in an order chosen by the tape. C36b: the members run on real goroutines, released together, three passes per round, in a build with the race detector at GOMAXPROCS 4. Oracles: every result equals the result of that statement run alone before; session state stays with its session (user variable, connection id, FOUND_ROWS() right after the session's own query, prepared statement names); no panic; C36b: no report of the race detector and no 'concurrent map' fatal; after every round the process list shows every connection idle, none lost, and Threads_running is back at its starting value; non-trivial = every run (>= 2 sessions overlap); distinct = distinct hash of the (group size, statement list) sequence",
+			Real: []string{"engine (parse, bind, analyze, execute) on a shared Engine / Catalog / memory database", "sqle.ProcessList and sql.StatusVariables", "information_schema and SHOW execution", "grouping / join iterators that start goroutines of their own"},
+			Stub: []string{"C36a: session scheduling at statement granularity (simulator)", "C36b: the simulator decides only the overlap groups; which thread runs when inside a group is left to the Go scheduler (see Assumptions)"},
+			Assumptions: []string{"C36b deviates from exact replay on purpose: a cooperative scheduler's hand-offs are happens-before edges and would hide every data race from any detector, so group members run on real threads and the race detector is the invariant monitor; a finding is identified by the pair of engine functions of the two racing accesses; runs of C36b are not re-executed by the determinism self-check (the detector reports a racing pair once per process)", "the wire layer is not part of this check (C35 / C37b cover it); writes are excluded, as the in-memory backend documents"},
+			Subs: []subCheck{
+				{ID: "C36a", World: "sqlsim", Quick: 3000, Thorough: 200000, QuickCap: 90, ThoroughCap: 1500, GC: "100"},
+				{ID: "C36b", World: "sqlsim", Race: true, Procs: 4, MaxWorkers: 4, Quick: 300, Thorough: 20000, QuickCap: 150, ThoroughCap: 1800, GC: "100", ShrinkS: 120,
+					Probes: []string{"overlap-group"}},
+			},
+		},
+		propCheck{
 			ID: "C39", Level: "exploration",
 			Rule: "one evaluation = one simulated history of 4-30 administrative statements by root (CREATE USER / ROLE, GRANT and REVOKE of 10 privilege kinds or ALL at the global, database, table and routine level, to users and roles, GRANT / REVOKE role, DROP USER / ROLE) over 3 users and 2 roles; after every statement every user's allow/deny outcome over 8 effect-free probe statements (SELECT/INSERT/UPDATE/DELETE on three tables, CALL) is taken from a long-lived session (privilege cache) and from a fresh session and compared with a privilege model (own grants united with the grants of every granted role, global or database or object level); in 2/3 of the steps one user also runs one statement with an effect (INSERT, UPDATE, DELETE, INSERT..SELECT, REPLACE, CREATE/DROP/ALTER TABLE, CREATE INDEX, CREATE USER): allowed iff the model holds every required privilege, allowed => the state changed, denied => the state read by root is unchanged; distinct = distinct hash of the statement-kind/outcome sequence",
 			Real: []string{"planbuilder authorization (HandleAuth), plan.Grant / Revoke / CreateUser / DropUser / roles execution", "mysql_db.MySQLDb, PrivilegeSet, role edges, per-session privilege cache (update counter)", "engine + memory backend"},
